@@ -52,34 +52,49 @@ func factsEngine() {
 	// (`sp.wr.tracer`), while subProcess.run waits for the cease-flow trace on the inner tracer.
 	{
 		f := load("subprocess.go")
-		fd := funcDecl(f, "subProcess", "NextAction")
 		val := ""
-		if fd != nil {
-			// find `go sp.ceaseFlowMonitor(X)(…)`
-			arg := ""
-			ast.Inspect(fd, func(n ast.Node) bool {
-				if c, ok := n.(*ast.CallExpr); ok {
-					if strings.HasSuffix(exprString(c.Fun), "ceaseFlowMonitor") && len(c.Args) == 1 {
-						arg = exprString(c.Args[0])
+		if f != nil {
+			// find `sp.ceaseFlowMonitor(X)` wherever the monitor is created (NextAction today; the activation
+			// goroutine of run after a repair that creates one monitor per activation) and resolve a local alias
+			// `tracer := sp.wr.tracer` inside the same function
+			args := map[string]bool{}
+			for _, d := range f.Decls {
+				fd, ok := d.(*ast.FuncDecl)
+				if !ok || fd.Body == nil || fd.Name.Name == "ceaseFlowMonitor" {
+					continue
+				}
+				alias := map[string]string{}
+				ast.Inspect(fd, func(n ast.Node) bool {
+					if a, ok := n.(*ast.AssignStmt); ok && len(a.Lhs) == 1 && len(a.Rhs) == 1 {
+						alias[exprString(a.Lhs[0])] = exprString(a.Rhs[0])
 					}
+					return true
+				})
+				ast.Inspect(fd, func(n ast.Node) bool {
+					if c, ok := n.(*ast.CallExpr); ok {
+						if strings.HasSuffix(exprString(c.Fun), "ceaseFlowMonitor") && len(c.Args) == 1 {
+							arg := exprString(c.Args[0])
+							if v, ok := alias[arg]; ok {
+								arg = v
+							}
+							args[arg] = true
+						}
+					}
+					return true
+				})
+			}
+			inner, parent := false, false
+			for a := range args {
+				if strings.HasSuffix(a, "subTracer") {
+					inner = true
+				} else if strings.HasSuffix(a, "wr.tracer") {
+					parent = true
 				}
-				return true
-			})
-			// resolve a local alias `tracer := sp.wr.tracer`
-			alias := map[string]string{}
-			ast.Inspect(fd, func(n ast.Node) bool {
-				if a, ok := n.(*ast.AssignStmt); ok && len(a.Lhs) == 1 && len(a.Rhs) == 1 {
-					alias[exprString(a.Lhs[0])] = exprString(a.Rhs[0])
-				}
-				return true
-			})
-			if v, ok := alias[arg]; ok {
-				arg = v
 			}
 			switch {
-			case strings.HasSuffix(arg, "subTracer"):
+			case inner && !parent:
 				val = "false"
-			case strings.HasSuffix(arg, "wr.tracer"):
+			case parent && !inner:
 				val = "true"
 			}
 		}
